@@ -395,7 +395,66 @@ func (fb *formulaBuilder) timeOrd(a ssa.Value, rel string, b ssa.Value) BExpr {
 }
 
 func (fb *formulaBuilder) compare(x *ssa.BinOp) BExpr {
-	rel := map[token.Token]string{token.EQL: "=", token.NEQ: "!=", token.LSS: "<", token.LEQ: "<=", token.GTR: ">", token.GEQ: ">="}[x.Op]
+	// an operand merged from several exits (a result variable of an expanded helper): the
+	// comparison holds iff it holds for the value carried by the edge taken
+	for side, v := range []ssa.Value{x.X, x.Y} {
+		phi, ok := strip(v).(*ssa.Phi)
+		if !ok || isNilConst(x.X) || isNilConst(x.Y) {
+			continue
+		}
+		if fb.phiBusy == nil {
+			fb.phiBusy = map[*ssa.Phi]bool{}
+		}
+		loop := fb.phiBusy[phi]
+		for i := range phi.Edges {
+			if phi.Block().Dominates(phi.Block().Preds[i]) {
+				loop = true
+			}
+		}
+		if loop {
+			continue
+		}
+		fb.phiBusy[phi] = true
+		var alts []BExpr
+		for i, e := range phi.Edges {
+			ec := fb.edgeCond(phi.Block().Preds[i], phi.Block())
+			var c BExpr
+			if side == 0 {
+				c = fb.compareVals(e, x.Op, x.Y)
+			} else {
+				c = fb.compareVals(x.X, x.Op, e)
+			}
+			alts = append(alts, bAnd{[]BExpr{ec, c}})
+		}
+		fb.phiBusy[phi] = false
+		return bOr{alts}
+	}
+	return fb.compareVals(x.X, x.Op, x.Y)
+}
+
+// compareVals: the comparison a op b as a formula.
+func (fb *formulaBuilder) compareVals(a ssa.Value, op token.Token, b ssa.Value) BExpr {
+	x := &ssa.BinOp{Op: op, X: a, Y: b}
+	rel := map[token.Token]string{token.EQL: "=", token.NEQ: "!=", token.LSS: "<", token.LEQ: "<=", token.GTR: ">", token.GEQ: ">="}[op]
+	if ac, aok := intConst(a); aok {
+		if bc, bok := intConst(b); bok {
+			// both constant: decide
+			switch rel {
+			case "=":
+				return bConst(ac == bc)
+			case "!=":
+				return bConst(ac != bc)
+			case "<":
+				return bConst(ac < bc)
+			case "<=":
+				return bConst(ac <= bc)
+			case ">":
+				return bConst(ac > bc)
+			case ">=":
+				return bConst(ac >= bc)
+			}
+		}
+	}
 	// nil comparisons -> opaque boolean "isnil(term)"
 	if isNilConst(x.Y) || isNilConst(x.X) {
 		other := x.X
